@@ -47,6 +47,8 @@ pub fn gen_case(rng: &mut Rng, i: usize, maxrecs: usize) -> CovCase {
     if big {
         // hundreds of short distinct records in one batch on many threads
         recs = (0..350).map(|j| { let len = 8 + (j % 23); gen_seq(rng, len, false) }).collect();
+        // and one long record (thousands of windows)
+        recs.push(gen_seq(rng, 6000, false));
     }
     if i % 11 == 3 {
         // only zero-length records: the final batch has total length 0
